@@ -182,8 +182,9 @@ def Prism.totalToReal (q : Prism α) : Except Err (Prism α) :=
   else return q
 
 /-- `solve`: `scipy.optimize.root` is an arbitrary oracle — it evaluates `cost` at some finite
-trace of points (every evaluation overwrites the arrays on the object) and returns; then
-`totalCorr` is moved to real space -/
+trace of points (every evaluation overwrites the arrays on the object) and returns a point `x*`; the
+(repaired, finding F18) code then evaluates `cost x*` itself, so the trace handed to this function
+always ENDS with the returned point; then `totalCorr` is moved to real space -/
 def Prism.solve (inv : Nat → Array α → Array α) (p : Prism α) (trace : List (Array α)) : Except Err (Prism α) := do
   let q ← trace.foldlM (fun s x => s.cost inv x) p
   q.totalToReal
